@@ -72,6 +72,10 @@ type Config struct {
 	KeepStats bool
 	// OnEvent is called for every logged event (under the log lock).
 	OnEvent func(Event)
+	// TeardownKeepsContexts: tearing the stream down makes every stream
+	// operation fail but leaves the callers' contexts alone (a transport whose
+	// lifetime is not tied to the contexts the calls were given).
+	TeardownKeepsContexts bool
 }
 
 var ErrTornDown = errors.New("stream torn down")
@@ -160,6 +164,17 @@ func (p *Pair) Overlaps() []string {
 // Teardown fails every pending and future call and cancels both contexts.
 func (p *Pair) Teardown() {
 	p.donce.Do(func() { close(p.down) })
+	if p.cfg.TeardownKeepsContexts {
+		return
+	}
+	p.S.cancel()
+	p.R.cancel()
+}
+
+// Release cancels both contexts (after a verdict, so that whatever is still
+// running can end).
+func (p *Pair) Release() {
+	p.Teardown()
 	p.S.cancel()
 	p.R.cancel()
 }
